@@ -12,7 +12,8 @@ Translated from the source text on every run (fail-closed):
   * the status codes the protocol itself chooses (400 for a parse error, 504 timeout, 500 exception) and the
     default lingering time;
   * shape checks: data_received turns HttpProcessingError into ONE `_ErrInfo` item appended to the queue;
-    handle_error refuses (ConnectionError) when `request.writer.output_size > 0`.
+    handle_error and the HTTPException branch of _handle_request refuse (ConnectionError) when
+    `request.writer.output_size > 0`; StreamResponse._start un-starts the response when _prepare_headers() raises.
 """
 import ast
 
@@ -23,7 +24,8 @@ OUTPUT = "ServerGen.v"
 ITEMS = ["MAX_MSG_QUEUE_SIZE", "msg_queue_resume_size", "parser_queue_full", "proto_queue_full",
          "proto_stays_paused", "proto_resume_mark", "msg_consumed", "msg_in_flight increment",
          "parse_error_status", "timeout_status", "exception_status", "default_lingering_time",
-         "ErrInfo append shape", "handle_error output_size shape", "parser constructed with the cap"]
+         "ErrInfo append shape", "handle_error output_size shape", "parser constructed with the cap",
+         "HTTPException branch output_size shape", "StreamResponse._start resets the writer when _prepare_headers raises"]
 
 WP = "aiohttp/web_protocol.py"
 HP = "aiohttp/http_parser.py"
@@ -190,6 +192,37 @@ def generate() -> str:
         raise TranslatorError(f"_handle_request: handle_error call sites changed: {codes}")
     out.append(f"Definition timeout_status : N := {int(codes['asyncio.TimeoutError'])}.\n"
                f"Definition exception_status : N := {int(codes['Exception'])}.\n")
+
+    # _handle_request: the HTTPException branch refuses to write a second head (raise ConnectionError) before it builds
+    # the exception's Response
+    hx = [n for n in ast.walk(hr) if isinstance(n, ast.ExceptHandler) and n.type is not None and ast.unparse(n.type) == "HTTPException"]
+    hx = _one(hx, "_handle_request: except HTTPException")
+    guard_at = build_at = None
+    for i, st2 in enumerate(hx.body):
+        if (isinstance(st2, ast.If) and ast.unparse(st2.test) == "request.writer.output_size > 0" and len(st2.body) == 1
+                and isinstance(st2.body[0], ast.Raise) and isinstance(st2.body[0].exc, ast.Call)
+                and isinstance(st2.body[0].exc.func, ast.Name) and st2.body[0].exc.func.id == "ConnectionError" and not st2.orelse):
+            guard_at = i
+        if build_at is None and any(isinstance(c2, ast.Call) and _is_self_attr(c2.func, "finish_response") for c2 in ast.walk(st2)):
+            build_at = i
+    if guard_at is None or build_at is None or not guard_at < build_at:
+        raise TranslatorError("_handle_request: the HTTPException branch must raise ConnectionError when "
+                              "request.writer.output_size > 0 before it calls finish_response")
+
+    # StreamResponse._start: a failed _prepare_headers() leaves the response un-started
+    WR = "aiohttp/web_response.py"
+    stf = core.find_function(WR, "_start", cls="StreamResponse")
+    ok = False
+    for n in ast.walk(stf):
+        if isinstance(n, ast.Try) and any("_prepare_headers" in ast.unparse(x) for x in n.body):
+            for h2 in n.handlers:
+                if h2.type is not None and ast.unparse(h2.type) in ("BaseException", "Exception"):
+                    resets = [ast.unparse(x) for x in h2.body]
+                    if "self._payload_writer = None" in resets and isinstance(h2.body[-1], ast.Raise) and h2.body[-1].exc is None:
+                        ok = True
+    if not ok:
+        raise TranslatorError("StreamResponse._start: `try: await self._prepare_headers() except BaseException: "
+                              "self._payload_writer = None; raise` not found")
 
     # handle_error: if request.writer.output_size > 0: raise ConnectionError(...)
     he = core.find_function(WP, "handle_error", cls="RequestHandler")
